@@ -229,9 +229,10 @@ def run(chk):
     chk.prove("Props/C26.v", ["Props/C26.vo", "Lit/Extract.vo"], [lit_tables.translate])
     try:
         binary = lc.build_driver()
-    except Exception as e:
-        chk.obligation("extracted model builds", False, str(e))
-        return
+    except Exception as e:   # a broken tie must not stop the oracle on the real code
+        chk.obligation("extracted model builds", False, str(e)[-1500:])
+        binary = None
+        chk.count("model-dependent parts skipped (no extracted model)")
     thorough = chk.tier == "thorough"
     rng = chk.rng
     try:
@@ -266,11 +267,13 @@ def run(chk):
         lines.append(("str_ok", lc.arg(d), lc.arg(s)))
         lines.append(("render_bracket", lc.arg(d), lc.arg(s)))
         lines.append(("read", nc.utable(src), "", lc.arg(src)))
-    res = lc.run_driver(binary, lines)
+    res = lc.run_driver(binary, lines) if binary else None
 
     def cmp_read(what, src, mnums):
-        m = decode_rout(mnums, src)
         got = canon_forms(hy, src)
+        if mnums is None:
+            return got
+        m = decode_rout(mnums, src)
         if m[0] == "other":
             chk.count("model-read:outside-fragment")
         elif m != got:
@@ -279,15 +282,16 @@ def run(chk):
 
     for i, (t, kind) in enumerate(texts):
         chk.count("gen:" + kind)
-        ms, mk = bool(res[4 * i][0]), bool(res[4 * i + 1][0])
         cs = ctor_ok(lambda: M.Symbol(t))
         ck = ctor_ok(lambda: M.Keyword(t))
-        if ms != cs:
-            chk.disagree("Lit.Ctor.sym_ok vs hy.models.Symbol", t, ms, cs)
-        if mk != ck:
-            chk.disagree("Lit.Ctor.kw_ok vs hy.models.Keyword", t, mk, ck)
-        got_s = cmp_read("Lit.Ctor.read_top vs hy.read_many", t, res[4 * i + 2])
-        got_k = cmp_read("Lit.Ctor.read_top vs hy.read_many", ":" + t, res[4 * i + 3])
+        if res:
+            ms, mk = bool(res[4 * i][0]), bool(res[4 * i + 1][0])
+            if ms != cs:
+                chk.disagree("Lit.Ctor.sym_ok vs hy.models.Symbol", t, ms, cs)
+            if mk != ck:
+                chk.disagree("Lit.Ctor.kw_ok vs hy.models.Keyword", t, mk, ck)
+        got_s = cmp_read("Lit.Ctor.read_top vs hy.read_many", t, res[4 * i + 2] if res else None)
+        got_k = cmp_read("Lit.Ctor.read_top vs hy.read_many", ":" + t, res[4 * i + 3] if res else None)
         rs = got_s == ("ok", [("sym", t)])
         rk = got_k == ("ok", [("keyword", t)])
         chk.count("symbol:ctor=%s read=%s" % (cs, rs))
@@ -307,16 +311,17 @@ def run(chk):
     off = 4 * len(texts)
     for i, (d, s) in enumerate(pairs):
         src = render_bracket(d, s)
-        mok = bool(res[off + 3 * i][0])
-        if "".join(chr(c) for c in res[off + 3 * i + 1]) != src:
-            chk.disagree("Lit.Ctor.render_bracket vs harness rendering", (d, s), res[off + 3 * i + 1], src)
         cb = ctor_ok(lambda: M.String(s, brackets=d))
-        if mok != cb:
-            chk.disagree("Lit.Ctor.str_ok vs hy.models.String", (d, s), mok, cb)
+        if res:
+            mok = bool(res[off + 3 * i][0])
+            if "".join(chr(c) for c in res[off + 3 * i + 1]) != src:
+                chk.disagree("Lit.Ctor.render_bracket vs harness rendering", (d, s), res[off + 3 * i + 1], src)
+            if mok != cb:
+                chk.disagree("Lit.Ctor.str_ok vs hy.models.String", (d, s), mok, cb)
         if "[" in d or "]" in d:
             chk.count("bracket:delimiter with square brackets (not judged)")
             continue
-        got = cmp_read("Lit.Ctor.read_top vs hy.read_many", src, res[off + 3 * i + 2])
+        got = cmp_read("Lit.Ctor.read_top vs hy.read_many", src, res[off + 3 * i + 2] if res else None)
         rb = got == ("ok", [("str", "str", [ord(c) for c in s], d)])
         chk.count("bracket:ctor=%s read=%s" % (cb, rb))
         for c in bracket_class(d, s):
